@@ -309,6 +309,8 @@ def _rand_deps(rng: random.Random, nmax: int, uncached_p: float, fail_p: float) 
                      "suspend": rng.random() < 0.4, "fail": False})
     if rng.random() < fail_p:
         rng.choice(deps)["fail"] = True
+    for d in deps:                      # drawn last: the graphs of earlier seeds stay what they were
+        d["csusp"] = rng.random() < 0.35
     return deps
 
 
@@ -341,6 +343,41 @@ def gen_deps(seed: int, n: int, uncached_p: float = 0.3) -> List[Scn]:
         steps += [["arrive", M]] + EPILOGUE_CLEAN
         cfg["ctxvia"] = len(out) % 2 == 1
         out.append({"cfg": cfg, "steps": steps, "family": "deps"})
+    return out
+
+
+def gen_teardown_stop(seed: int, n: int) -> List[Scn]:
+    """C12/C05: shutdown (with and without a drain timeout) and task timeouts arriving while an execution is INSIDE an awaiting
+    teardown, with dependencies opened earlier still to be finalised after it."""
+    rng = random.Random(("teardown_stop", seed).__repr__())
+    out = []
+    for k in range(n):
+        first = {"id": 1, "style": rng.choice(["gen", "cm", "agen", "acm"]), "csusp": rng.random() < 0.3}
+        second = {"id": 2, "style": rng.choice(["agen", "acm"]), "csusp": True, "parent": rng.choice([0, 1])}
+        deps = [first, second]
+        if rng.random() < 0.4:
+            deps.append({"id": 3, "style": rng.choice(["gen", "acm", "plain"]), "parent": rng.choice([0, 2]), "csusp": rng.random() < 0.5})
+        W = rng.choice([-1, 1, 2, 4])
+        M = rng.randint(1, 3)
+        msgs = []
+        for _ in range(M):
+            mc: Dict[str, Any] = {"task": rng.choice(["ta", "ta", "ta0"])}
+            if rng.random() < 0.3:
+                mc["timeout"] = rng.choice([2, 3])        # runs out while the teardown is suspended: the function has ended, no timeout error
+            msgs.append(mc)
+        cfg = {"A": rng.choice([1, 2, 0]), "P": rng.choice([0, 1]), "W": W, "deps": deps, "propagate": rng.random() < 0.5,
+               "ack": rng.choice(["default", "when_executed", "when_saved", "when_received"]), "msgs": msgs}
+        steps: List[Any] = [["arrive", M], ["fin_any", 0, rng.choice(["ret", "ret", "exc", "base"])]]
+        if rng.random() < 0.5:
+            steps.append(["fin_any", 0, rng.choice(["ret", "exc"])])
+        r = rng.random()
+        if r < 0.75:
+            steps.append(["stop"])
+        steps.append(["adv_rel", rng.choice([1, max(W, 0) + 5, 2 * max(W, 0) + 9])])
+        if rng.random() < 0.5:
+            steps += [["gate_any", 0], ["adv_rel", 2]]
+        steps += [["gate_all"], ["fin_all", "ret"], ["gate_all"], ["stop"], ["adv_rel", max(W, 0) + 8]]
+        out.append({"cfg": cfg, "steps": steps, "family": "teardown_stop"})
     return out
 
 
